@@ -6,7 +6,7 @@ From MV Require Import Model.SavePrelude Gen.SaveHooks Model.Save.
 Import ListNotations.
 Open Scope N_scope.
 
-(* ---------- the property's vocabulary ---------- *)
+(* ---------- the vocabulary of the property ---------- *)
 (* hooks at which a flow starts / completes (ws: flow.websocket is set) *)
 Definition is_start (h : hook) : bool :=
   match h with HRequest | HTcpStart | HUdpStart | HDnsRequest => true | _ => false end.
